@@ -54,6 +54,7 @@ Lemma tab_prekex : table_all gate_row p_prekex = true. Proof. vm_compute. reflex
 Lemma tab_preauth : table_all gate_row p_preauth = true. Proof. vm_compute. reflexivity. Qed.
 Lemma tab_role : table_all gate_row p_role = true. Proof. vm_compute. reflexivity. Qed.
 Lemma tab_strict : table_all gate_row p_strict = true. Proof. vm_compute. reflexivity. Qed.
+Lemma tab_guess : table_all gate_row (p_guess gate_row) = true. Proof. vm_compute. reflexivity. Qed.
 Lemma tab_between : table_all gate_row p_between = true. Proof. vm_compute. reflexivity. Qed.
 Lemma tab_stale : table_all gate_row p_stale = true. Proof. vm_compute. reflexivity. Qed.
 Lemma tab_postauth : table_all gate_row p_postauth = true. Proof. vm_compute. reflexivity. Qed.
@@ -105,6 +106,16 @@ Section TableFacts.
     fold v in H. rewrite Hp in H. subst t. simpl in H. apply verdict_eqb_spec. exact H.
   Qed.
 
+  Lemma fact_guess :
+    (ph = 13 -> 30 <= t <= 49 -> v = VI) /\ (ph = 14 -> v = lookup gate_row sv 1 sk va t).
+  Proof.
+    pose proof (table_all_spec _ _ tab_guess sv ph sk va t Hph Hva Ht) as H. unfold p_guess in H. fold v in H. split.
+    - intros Hp Hr. subst ph. simpl in H.
+      assert (E1 : (30 <=? t) = true) by (apply Z.leb_le; lia). assert (E2 : (t <=? 49) = true) by (apply Z.leb_le; lia).
+      rewrite E1, E2 in H. simpl in H. apply verdict_eqb_spec. exact H.
+    - intros Hp. subst ph. simpl in H. apply verdict_eqb_spec. exact H.
+  Qed.
+
   Lemma fact_role : foreign_to sv t = true -> v <> VH.
   Proof.
     intros Hf. pose proof (table_all_spec _ _ tab_role sv ph sk va t Hph Hva Ht) as H. unfold p_role in H.
@@ -133,10 +144,11 @@ Section TableFacts.
       destruct Htt as [Htt|Htt]; subst t; simpl in H; exact H.
   Qed.
 
-  Lemma fact_unassigned : unassigned t = true -> v = VU \/ v = VF \/ v = VL.
+  Lemma fact_unassigned : unassigned t = true -> ph <> 13 -> v = VU \/ v = VF \/ v = VL.
   Proof.
-    intros Hu. pose proof (table_all_spec _ _ tab_unassigned sv ph sk va t Hph Hva Ht) as H. unfold p_unassigned in H.
-    fold v in H. rewrite Hu in H. unfold is_fatal in H.
+    intros Hu Hn. pose proof (table_all_spec _ _ tab_unassigned sv ph sk va t Hph Hva Ht) as H. unfold p_unassigned in H.
+    fold v in H. rewrite Hu in H. assert (E : (ph =? 13) = false) by (apply Z.eqb_neq; exact Hn). rewrite E in H.
+    simpl in H. unfold is_fatal in H.
     apply orb_true_iff in H. destruct H as [H|H]; [left; apply verdict_eqb_spec; exact H|].
     apply orb_true_iff in H. destruct H as [H|H]; apply verdict_eqb_spec in H; auto.
   Qed.
